@@ -102,6 +102,19 @@ Definition map_put {V} (k : str) (v : V) (c : str -> option V) : str -> option V
 Definition range_copy {V} (c0 : str -> option V) (order : gomap V) : str -> option V :=
   fold_left (fun c kv => map_put (fst kv) (snd kv) c) order c0.
 
+(* urlchecker.go CheckFetchURL (after 37e2b2f): among the entries that match, keep the one
+   with the largest measure; the best so far is replaced only by a strictly larger one:
+     if !found || len(k) > len(best) { best, found = k, true } *)
+Definition argmax_step {A} (p : A -> bool) (m : A -> N) (best : option A) (x : A) : option A :=
+  if p x then
+    match best with
+    | None => Some x
+    | Some b => if m b <? m x then Some x else Some b
+    end
+  else best.
+Definition range_argmax {A} (p : A -> bool) (m : A -> N) (order : list A) : option A :=
+  fold_left (argmax_step p m) order None.
+
 (* ---- the order-dependent shapes (what must NOT be done) ---- *)
 (* printing inside the loop: the output is the concatenation in visiting order *)
 Definition range_print {A} (line : A -> str) (order : list A) : str := concat (map line order).
